@@ -454,5 +454,28 @@ def minimal_findings() -> list[dict]:
     ]
 
 
+def alignment_sweep() -> list[dict]:
+    """enumerated: one long batch of same-sized routes of one family, enough for two or three full messages, under an attribute
+    block that grows octet by octet over a whole residue cycle of the NLRI size: whatever the accounting of a section is, one of
+    these fills a message (and an MP attribute of more than 255 octets) to the last octet"""
+    out = []
+    for afi, safi in FAMILIES:
+        count = {(1, 1): 1500, (2, 1): 1000, (1, 4): 1300, (1, 128): 600}[(afi, safi)]
+        for extra in range(16):
+            case = hand_case(None, [[afi, safi, count, 0, 0, 1]], [])
+            case['attrs'] = steer(case['attrs'], case['session'], 40 + extra, [])
+            case['attrs']['mode'] = 'alignment'
+            out.append(case)
+        # withdrawals of unicast families travel without attributes: the mask mixes give the different alignments
+        for mix in (0, 1, 4, 5):
+            case = hand_case(None, [], [[afi, safi, count, mix]])
+            case['attrs']['mode'] = 'alignment'
+            out.append(case)
+            case = hand_case(None, [[afi, safi, count // 2, (mix + 1) % 6, 0, 1]], [[afi, safi, count // 2, mix]])
+            case['attrs']['mode'] = 'alignment'
+            out.append(case)
+    return out
+
+
 def fixed_cases() -> list[dict]:
-    return minimal_findings() + boundary_sweep()
+    return minimal_findings() + boundary_sweep() + alignment_sweep()
